@@ -46,7 +46,7 @@ if __name__ == '__main__':
         one(arg('--dtype'))
         sys.exit(0)
     t0 = time.time()
-    dts = ['uint8', 'float32', 'int16'] + (['int8', 'float64'] if FULL else [])
+    dts = ['uint8', 'float32', 'int16', 'float64', 'uint16', 'int32', 'uint32', 'int64'] + (['int8'] if FULL else [])
     ps = [subprocess.Popen([sys.executable, os.path.abspath(__file__), '--dtype', td, '--kinds', ','.join(KINDS)]) for td in dts]
     rc = max(p.wait() for p in ps)
     print('warmed %d dtypes x 2 precisions, kinds %s in %.1fs' % (len(dts), KINDS, time.time() - t0))
